@@ -13,7 +13,7 @@ def showOW := showOpt showWd
 def showOM := showOpt showMo
 
 def optNat? (s : String) : Option (Option Nat) := if s = "none" then some none else (nat? s).map some
-def align? (s : String) : Option M.Align :=
+def align? (s : String) : Option M.WdFmt.Align :=
   if s = "l" || s = "d" then some .left else if s = "r" then some .right
   else if s = "c" then some .center else none
 
